@@ -61,6 +61,10 @@ type Runner struct {
 	OnQuiescent   func(when string) // called at quiescent points (after transactions, after reopen)
 	TxActiveSlot  int               // active header slot when the running transaction began
 	ReopenFn      func()            // replaces the default close+open+verify of the "reopen" operation
+	// the most recently finished write transaction (for misuse checks)
+	LastTx    *txfile.Tx
+	LastPages []*txfile.Page
+	LastEnd   string
 	OnCommitResult func(rec *CommitRec, err error) // called right after Commit returned
 	txOOMSeen     bool
 	OnTxEnd       func()       // called right after a write transaction ended (before post checks)
@@ -561,12 +565,14 @@ func (r *Runner) apply(op Op) bool {
 		if r.BeforeEnd != nil {
 			r.BeforeEnd()
 		}
+		r.keepLast()
 		if op.K == "rollback" {
 			err = r.tx.Rollback()
 		} else {
 			err = r.tx.Close()
 		}
 		r.tx = nil
+		r.LastEnd = op.K
 		if r.OnTxEnd != nil {
 			r.OnTxEnd()
 		}
@@ -653,6 +659,21 @@ func (r *Runner) checkAllocated(pages []*txfile.Page) {
 	}
 }
 
+func (r *Runner) keepLast() {
+	r.LastTx = r.tx
+	r.LastPages = r.LastPages[:0]
+	ids := make([]PageID, 0, len(r.txPages))
+	for id := range r.txPages {
+		ids = append(ids, id)
+	}
+	sort.Slice(ids, func(i, j int) bool { return ids[i] < ids[j] })
+	for _, id := range ids {
+		if h := r.txPages[id].h; h != nil {
+			r.LastPages = append(r.LastPages, h)
+		}
+	}
+}
+
 // attemptedState computes the state the running transaction would commit.
 func (r *Runner) attemptedState() *State {
 	st := r.Cur().clone()
@@ -688,8 +709,13 @@ func (r *Runner) doCommit() {
 	if r.BeforeEnd != nil {
 		r.BeforeEnd()
 	}
+	r.keepLast()
 	err := r.tx.Commit()
 	r.tx = nil
+	r.LastEnd = "commit-ok"
+	if err != nil {
+		r.LastEnd = "commit-failed"
+	}
 	r.Commits[ci].RetSeq = e.S.NextSeq()
 	if r.OnTxEnd != nil {
 		r.OnTxEnd()
